@@ -746,6 +746,17 @@ def family(name):
         cs.append(fOr([net.trap(S) for S in net.subspaces if S[2] == 0 and S[3] == 0]))
         net.family_constraints += cs
         return net
+    if name == "SKIP3":
+        # 3 variables (x, y, z) constrained so that the full diagram has a SHORTCUT: {x=1} and {y=1} are both stable motifs
+        # of the whole space, {x=1} percolates to {x=1,y=1} (which is therefore also a successor of the node {y=1}), and
+        # {x=1,y=1} has a trap space below it: root -> B -> C -> D together with root -> C (nodes with two parents at
+        # different distances from the root - where depth bookkeeping has something to get wrong)
+        net = SymNet(3)
+        E = (None, None, None)
+        net.family_constraints += [net.perc_eq(E, E), net.trap((1, None, None)), net.perc_eq((1, None, None), (1, 1, None)),
+                                   net.trap((None, 1, None)), net.perc_eq((None, 1, None), (None, 1, None)),
+                                   fOr([net.trap((1, 1, 0)), net.trap((1, 1, 1))]), fNot(net.perc_eq((1, 1, None), (1, 1, 0))), fNot(net.perc_eq((1, 1, None), (1, 1, 1)))]
+        return net
     if name == "N3":
         # 3 variables, every variable negatively auto-regulated somewhere (maximal negative feedback vertex sets)
         net = SymNet(3)
